@@ -11,3 +11,5 @@ NOT_DECIDED = "guard values flipping at arbitrary ticks (runtime)"
 
 def check(ctx):
     _framing.entry_guards(ctx)
+    from .c04 import start_guards
+    start_guards(ctx)      # the start path of a framer is an entry too (first frame outline's guards)
